@@ -319,7 +319,7 @@ class Particle:
                 "E": [5, 0],
                 "px": [6, 0],
                 "py": [7, 0],
-                "pz_": [8, 0],
+                "pz": [8, 0],
                 "pdg": [9, 0],
                 "ID": [11, 0],
                 "charge": [12, 0],
@@ -331,7 +331,7 @@ class Particle:
                 "t_last_coll": [18, 0],
                 "pdg_mother1": [19, 0],
                 "pdg_mother2": [20, 0],
-                "status_": [21, 0],
+                "status": [21, 0],
                 "baryon_number": [22, 0],
                 "strangeness": [23, 0],
             },
